@@ -201,6 +201,30 @@ def compile_script(feed, tracked, opts, size, delivery, seq, quit_key='q'):
                         'cursor visible'}
 
 
+def compile_waiting(kind, opts_name, argv_extra, pre_keys, quit_key):
+    """Quit requested while radar shows "Waiting for connection": at start-up (no server) or, with --retry-tcp,
+    after an established connection was lost and cannot be re-made."""
+    argv = list(e4lib.BASE_ARGV) + list(argv_extra)
+    steps = []
+    if kind == 'startup':
+        steps.append({'op': 'wait_draws', 'n': 1})
+    else:
+        steps.append({'op': 'sync', 'n': 2})
+        steps.append({'op': 'stop_listening'})
+        before = 3
+        steps.append({'op': 'close'})
+        # the reconnect screen is one more draw after the main loop stops drawing; give the loop time to get there
+        steps.append({'op': 'settle_waiting'})
+    for k in pre_keys:
+        steps.append({'op': 'keys_nowait', 'hex': hexs(KEYS[k]), 'letters': [k]})
+    steps.append({'op': 'quit', 'hex': hexs(KEYS[quit_key]), 'letters': [quit_key]})
+    key = 'radar|80x24|waiting-%s|opts=%s|%s|%s' % (kind, opts_name, ','.join(pre_keys) or 'none', quit_key)
+    return {'binary': 'radar', 'oracle': 'c17', 'key': key, 'argv': argv, 'size': [80, 24], 'filler': False,
+            'connect': kind != 'startup', 'no_listen': kind == 'startup', 'events': list(pre_keys) + [quit_key], 'steps': steps,
+            'expected': 'alive until quit; exit 0; no panic; termios restored (ICANON, ECHO); mouse reporting off; '
+                        'cursor visible'}
+
+
 def compile_cli(name, argv, must_reject):
     return {'binary': 'radar', 'oracle': 'c17cli', 'key': 'radar-cli|%s' % name, 'argv': argv, 'size': [80, 24],
             'filler': False, 'connect': False, 'no_port': False, 'must_reject': must_reject, 'events': [name],
@@ -316,6 +340,17 @@ def enumerate_scripts(tier, feed):
                     continue   # --filter-time=0 already expires everything at once
                 add(tr, op, big, 'separated', [a])
     bound['parts']['depth<=1 @80x24 x tracked(4) x opts(5)'] = len(out) - n0
+
+    # quit while the connection screen is shown (start-up without a server; lost connection with --retry-tcp)
+    n0 = len(out)
+    for kind, extra, oname in (('startup', [], 'default'), ('startup', ['--retry-tcp'], 'retry'), ('lost', ['--retry-tcp'], 'retry')):
+        for qk in QUITS:
+            for pre in ([], ['x'], ['F3'], ['Down', 'Enter']):
+                sc = compile_waiting(kind, oname, extra, [k for k in pre if k in KEYS], qk)
+                if sc['key'] not in seen:
+                    seen.add(sc['key'])
+                    out.append(sc)
+    bound['parts']['quit on the connection screen (start-up / lost connection) x quit keys x 4 key prefixes'] = len(out) - n0
 
     n0 = len(out)
     if tier == 'quick':
